@@ -402,6 +402,13 @@ func (h *Hub) topicUnreg(sess *Session, topic string, msg *ClientComMessage, rea
 		// Case 1 (unregister and delete)
 		if t := h.topicGet(topic); t != nil {
 			// Case 1.1: topic is online
+			if msg != nil && t.isInactive() {
+				// The topic is still being loaded (its owner is not known yet) or is already being deleted.
+				if sess != nil {
+					sess.queueOut(ErrLockedReply(msg, now))
+				}
+				return nil
+			}
 			if (!asUid.IsZero() && t.owner == asUid) || (t.cat == types.TopicCatP2P && t.subsCount() < 2) {
 				// Case 1.1.1: requester is the owner or last sub in a p2p topic
 				t.markPaused(true)
